@@ -9,13 +9,42 @@ TRUSTED_BASE = [
 ]
 
 CMD_DOC = {
+    101: "decode through an entry point (0: m.Decode in a buffer of given spare capacity; 1: Decode(data,m)/Write/UnmarshalBinary/GobDecode/CloneTo onto a previous buffer; 2: ReadFrom): status, fields, attribute views with offsets, IsMessage",
+    201: "library Decode projected on the RFC parse (accept flag, method, class, length, tid, (type,value) list) vs the Coq Spec parser rfc_parse",
+    202: "Get / Contains / ForEach (callback failing at its k-th call) on the decoded message",
     1901: "MessageType.Value on one (method, class)",
     1902: "MessageType.ReadValue on one value",
     1903: "MessageType.Value table slice: 256 methods x 4 classes",
     1904: "MessageType.ReadValue table slice: 1024 wire values",
 }
 
+DECODE_RULE = ("streams: (i) EXHAUSTIVE length structures (every sequence of attribute length fields with padded total <= bound, "
+               "x declared length and buffer length each in [size-5,size+5] and 0xFFFF, x over-claiming last attribute 1..3 bytes / 0xFFFC..0xFFFF, "
+               "x header truncations 0..20), (ii) structured-valid messages with known/random/0x8020 types and random non-zero padding, "
+               "(iii) mutated RFC 5769 vectors and valid messages (bit flips, length edits, truncation, extension, splices), (iv) random bytes with the cookie forced, "
+               "(v) messages at the 65535-byte limit (one maximal attribute, 16383 empty attributes, many mid-sized); ")
+
 PROPS = {
+    "C01": {
+        "level": "proof",
+        "pinned": [101],
+        "tagsets": [["verif"], ["verif", "debug"]],
+        "coq_sample": 150,
+        "coq_sample_maxlen": 1500,
+        "rule": DECODE_RULE + "each input is decoded in an exact-capacity buffer and in buffers with +1..+64 / +4096 spare bytes filled with 00/ff/random, and (every 3rd and all large inputs) through the five copying entry points and ReadFrom onto a previous buffer of assorted capacity and length; release and debug tags. non-trivial = every case (each is a distinct (input, capacity, entry) triple); distinct by literal case line",
+        "explanation": "theorems: totality of the Impl-model (no Panic/OutOfFuel), view geometry (chain), capacity independence; monitors (tests, not proofs): recovered panics, TotalAlloc delta <= 64*len+8KiB on a sample, caller-buffer poisoning after the copying entry points, agreement of the five copying entry points, pointer offsets of every exposed view (unsafe.SliceData) against the model's a_off",
+        "assumptions": ["Go slice/append semantics as modelled in Base/Slice.v (growcap transcribes runtime.growslice of Go 1.23; proofs use only growcap >= needed)",
+                        "encoding/binary.BigEndian as rd16/rd32"],
+    },
+    "C02": {
+        "level": "proof",
+        "pinned": [201, 202],
+        "coq_sample": 150,
+        "coq_sample_maxlen": 1500,
+        "rule": DECODE_RULE + "each input goes through the library's Decode and through the extracted Spec parser rfc_parse (structurally independent of the Go loop); accepted messages additionally through Get/Contains/ForEach with a callback failing at visit 0..4, incl. 1500 messages with repeated attribute types. non-trivial = every case; distinct by literal case line",
+        "explanation": "theorems: decode accepts iff the RFC grammar tlv_seq (iff rfc_parse), every field equals the RFC parse, unique parse, Get=first, Contains=membership, ForEach for every callback; the correspondence compares the library directly with the Spec (oracle B), C01 compares it with the Impl-model",
+        "assumptions": ["same as C01"],
+    },
     "C19": {
         "level": "proof",
         "pinned": [1903, 1904],
